@@ -172,7 +172,7 @@ fn refs_expected(ws: &Ws, r: &crate::ws::Rendered, d: DefId) -> Vec<Loc> {
 pub fn run(rep: &Report) {
     let thorough = is_thorough();
     let depth = 3;
-    let max_len = if thorough { 5 } else { 3 };
+    let max_len = if thorough { 5 } else { 4 };
     let chains = Chain::enumerate(depth, max_len);
     let cnt = Counters::new();
     let judged_lines = std::sync::atomic::AtomicU64::new(0);
